@@ -26,7 +26,7 @@ from ..report import Ctx
 from ..selftest import Mutant
 
 PROP = "C14"
-TECHNIQUE = "static analysis: abstract interpretation of every cache method over (key membership per container, queue multiplicity, fullness) + lock-region analysis with transitive helper callers + CFG must-pass rules + policy selector def-use + negative-slice-bound rule + containers-bound-once rule + manager-proxy iteration rule + exceptional exit states at user-value serialisation + encode/decode guard truth-table agreement + directory-listing must-pass under a set bound + unrestricted eviction candidates + evict-after-write ordering + keys-never-ordered rule + read-only disk reads (effects) + fall-through of a miss in the in-memory level + vanished-file tolerance of clear()"
+TECHNIQUE = "static analysis: abstract interpretation of every cache method over (key membership per container, queue multiplicity, fullness) + lock-region analysis with transitive helper callers + CFG must-pass rules + policy selector def-use + negative-slice-bound rule + containers-bound-once rule + manager-proxy iteration rule + exceptional exit states at user-value serialisation + encode/decode guard truth-table agreement + directory-listing must-pass under a set bound + unrestricted eviction candidates + evict-after-write ordering + keys-never-ordered rule + read-only disk reads (effects) + fall-through of a miss in the in-memory level + vanished-file tolerance of clear() + hit-refresh guard kinds (the recency update depends on the lookup only) + constructor parameter wiring + field-alias normalisation"
 MOD = "pipefunc.cache"
 EXPLANATION = (
     "Static analysis of pipefunc/cache.py: lock-discipline (all dependent accesses to the shared containers of "
